@@ -130,6 +130,28 @@ theorem accepted_unique_witness_unfixed : ¬ OldFilterSound := by
   revert this
   decide +kernel
 
+/-! ### what the filter does NOT give: the known finding istio#24638
+
+`mergeGateways` passes the namespaced host strings (`ns/host`) of a server, while the filter chain match is built from the
+SNI hosts (`host`). The projection is not injective, so the theorem above says nothing about the SNI hosts there: -/
+
+/-- the SNI host of a sanitized server host (`ns/host` or `host`) -/
+def sniHost (h : String) : String :=
+  match h.toList.reverse.span (· != '/') with
+  | (r, _) => String.ofList r.reverse
+
+def TlsServer.sni (s : TlsServer) : TlsServer := { s with hosts := s.hosts.map sniHost }
+
+/-- **Witness of the known finding.** Two TLS servers of one port and bind, hosts `istio-system/foo.com` and
+    `default/foo.com` (two Gateways in different namespaces, `./foo.com` each): the filter accepts both, and both become
+    filter chains matching `server_names = [foo.com]`. Replayed on the real code by
+    harness/corpus/C14/snapshot.known-gateway-dup-sni.ops (KNOWN-FINDING, not fixed: an unedited test pins it). -/
+theorem namespace_qualifier_witness_known :
+    acceptServers [⟨["istio-system/foo.com"], ""⟩, ⟨["default/foo.com"], ""⟩] [] =
+        [⟨["istio-system/foo.com"], ""⟩, ⟨["default/foo.com"], ""⟩] ∧
+      ¬ (pairsOf ([⟨["istio-system/foo.com"], ""⟩, ⟨["default/foo.com"], ""⟩].map TlsServer.sni)).Nodup := by
+  decide +kernel
+
 example : acceptServers [⟨["foo.com"], "A"⟩, ⟨["foo.com"], "B"⟩, ⟨["foo.com"], "A"⟩, ⟨["bar.com", "foo.com"], "B"⟩, ⟨["bar.com"], "B"⟩] [] =
     [⟨["foo.com"], "A"⟩, ⟨["foo.com"], "B"⟩, ⟨["bar.com"], "B"⟩] := by decide +kernel
 
